@@ -70,13 +70,24 @@ def _child(batch, start, wfd, scratch, mem_limit):
             out.write(json.dumps(dict(begin=i)) + "\n")
             s0 = _state(scratch)
             res = {}
+            mods0 = set(sys.modules)
             res["untrusted"], names = _classify(lambda: get_untrusted_types(data=data))
             res["visualize"], _ = _classify(lambda: visualize(data, sink=lambda nodes, show, **kw: [n for n in nodes]))
-            T = names if isinstance(names, list) else []
-            res["loads"], _ = _classify(lambda: loads(data, trusted=T))
+            imported = sorted(m for m in set(sys.modules) - mods0 if not m.startswith(("encodings", "skops.")))
+            # with an empty trusted list: everything the defaults let through is constructed (native parsers included)
+            res["loads"], _ = _classify(lambda: loads(data, trusted=[]))
             s1 = _state(scratch)
+            # and with every reported name trusted, to get further into construct: crash / hang / exception class only --
+            # what importing and calling names the caller vouched for does to the process is the caller's business
+            T = names if isinstance(names, list) else []
+            if T:
+                res["loads-all-trusted"], _ = _classify(lambda: loads(data, trusted=T))
             changed = [k for k in s0 if s0[k] != s1[k]]
             detail = {k: (s0[k], s1[k]) for k in changed if k in ("cwd", "files", "umask")}
+            if imported:
+                # inspecting an archive (no trusted list involved yet) made the interpreter import modules
+                changed.append("sys.modules")
+                detail["sys.modules"] = imported[:6]
             out.write(json.dumps(dict(end=i, res=res, changed=changed, detail=detail, blocked=rec.blocked_hits[-3:])) + "\n")
             rec.events.clear()
             # leave no residue for the next archive
